@@ -10,6 +10,7 @@ the caller, over all `n ≥ 1`, all `maxtasksperchild`, all item lists and all s
 sees (`ok outs` / `raised e outs` / `closed outs` after an early abandon).
 -/
 import CobaVerif.Lemmas.C08
+import CobaVerif.Generated.C08Callback
 
 namespace Coba.C08
 
@@ -202,6 +203,150 @@ theorem swap_adjacent (c : Cfg) (s : State) (a b : Action) (rest : List Action) 
 caller's get (both on the out-queue) are not related by `indep` -/
 example : indep (.wPut 0) .loadPut = true ∧ enabled commCfg commState (.wPut 0) = true ∧ enabled commCfg commState .loadPut = true
       ∧ indep (.wPut 0) .cGet = false := step_comm_example'
+
+/-! ### phase 4: a larger independence table (`wPut`–`cGet`, `loadPut`–`wGet`) -/
+
+/-- `indep2` = `indep` plus a worker's put with the caller's get and the loader's put with a worker's get: whenever both steps of
+such a pair are possible (so the queue they share is not empty, resp. neither empty nor full) either order is possible and both
+orders reach the same state -/
+theorem step_comm2 (c : Cfg) (s : State) (a b : Action) (hi : indep2 a b = true)
+    (ha : enabled c s a = true) (hb : enabled c s b = true) :
+    enabled c (step c s a) b = true ∧ enabled c (step c s b) a = true ∧ step c (step c s a) b = step c (step c s b) a :=
+  step_comm2' c s a b hi ha hb
+
+theorem swap_adjacent2 (c : Cfg) (s : State) (a b : Action) (rest : List Action) (hi : indep2 a b = true)
+    (ha : enabled c s a = true) (hb : enabled c s b = true) :
+    runTrace c s (a :: b :: rest) = runTrace c s (b :: a :: rest) := swap_adjacent2' c s a b rest hi ha hb
+
+/-- the two new pairs are in, two takers / two putters of one queue stay dependent -/
+example : indep2 (.wPut 0) .cGet = true ∧ indep (.wPut 0) .cGet = false ∧ indep2 .loadPut (.wGet 1) = true ∧ indep2 (.wGet 0) (.wGet 1) = false
+      ∧ indep2 (.wPut 0) (.wPut 1) = false := indep2_example'
+
+/-! ### phase 4: worker processes that die (exit code ≠ 0, `_main_err`) — `enabledF`/`stepF`, any finite number of faults -/
+
+/-- without faults the extended system is the base system: every theorem above applies to it -/
+theorem no_faults_refines (c : Cfg) (s : FState) (hr : ReachableF c 0 s) :
+    Reachable c s.b ∧ s.mainErr = false ∧ s.crashed = [] ∧ s.skipped = false ∧ s.budget = 0 := no_faults_refines' c s hr
+
+/-- never hangs, with faults: the measure `muF` strictly decreases on EVERY step of the extended system (a crash included) … -/
+theorem variant_decreases_faults (c : Cfg) (s : FState) (a : ActionF) (h : enabledF c s a = true) :
+    muF c (stepF c s a) < muF c s := muF_decreases' c s a h
+
+/-- … so for every number of faults `f` and every schedule (crashes at any moment, of any lineage, before or after the caller woke up)
+the run is finite, with an explicit bound; and in its `finally` block the caller's last step is always possible -/
+theorem terminates_faults (c : Cfg) (f : Nat) (tr : List ActionF) (s : FState) (h : runTraceF c (initF c f) tr = some s) :
+    tr.length ≤ mu c (init c) + 3 * f := terminates_faults' c f tr s h
+
+theorem fin_can_finish_faults (c : Cfg) (s : FState) (h : s.b.main = .fin) : enabledF c s (.base .mDone) = true :=
+  fin_can_finish_faults' c s h
+
+/-- maxtasksperchild, for every schedule INCLUDING restarts after retirements, errors of other lineages and crashed processes:
+no process incarnation has taken more than `m` items.  (`MaxK` is inductive on its own: `maxk_step`, no other invariant, no `0 < n`.) -/
+theorem max_tasks_respected_faults (c : Cfg) (hm : 0 < c.m) (f : Nat) (s : FState) (hr : ReachableF c f s)
+    (w k : Nat) (p : List Nat) (e : Option Nat) (h : s.b.ws[w]? = some (.run k p e)) : k ≤ c.m :=
+  max_tasks_faults' c hm f s hr w k p e h
+
+theorem max_tasks_inductive (c : Cfg) (s : State) (a : Action) (h : MaxK c s) (he : enabled c s a = true) : MaxK c (step c s a) :=
+  maxk_step c s a h he
+
+/- FULL statements (not provable: false for the code, recorded finding C08-F5):
+   theorem exactly_once_faults_full  (f) (hr : ReachableF c f s) … : ∃ outs, outcome s.b = .ok outs ∧ outs.Perm (allOuts c)
+   theorem error_surfaces_faults_full (f) (hr : ReachableF c f s) … : "outcome = ok ⇒ nothing lost"
+   The callback of a process with exit code ≠ 0 records no error, so the item the process held is lost and the call returns normally. -/
+
+/-- proved part: with the forced hypothesis "no fault happens" (`f = 0`) -/
+theorem exactly_once_faults_partial (c : Cfg) (hn : 0 < c.n) (s : FState) (hr : ReachableF c 0 s) (hd : s.b.main = .done)
+    (hab : s.b.abandoned = false) (hne : ∀ x ∈ c.items, x.err = none ∧ x.perr = none) :
+    ∃ outs, outcome s.b = .ok outs ∧ outs.Perm (allOuts c) := exactly_once_faults_partial' c hn s hr hd hab hne
+
+theorem error_surfaces_faults_partial (c : Cfg) (hn : 0 < c.n) (s : FState) (hr : ReachableF c 0 s) (hd : s.b.main = .done)
+    (hab : s.b.abandoned = false) (x : ItemSpec) (hx : x ∈ c.items) (hxe : x.err ≠ none ∨ x.perr ≠ none) :
+    ∃ e outs, outcome s.b = .raised e outs ∧ e ∈ allErrs c := error_surfaces_faults_partial' c hn s hr hd hab x hx hxe
+
+/-- the hypothesis is necessary: ONE crash (lineage 0 dies holding item 0) and the call ends normally with `[2]` of `[1, 2]`,
+no error recorded — the schedule the harness replays on the real code (known finding C08-F5) -/
+theorem exactly_once_faults_counterexample :
+    (runTraceF crashCfg (initF crashCfg 1) crashTrace).map (fun s => (s.b.main, outcome s.b, s.lostOuts, s.mainErr))
+      = some (Phase.done, Outcome.ok [2], [1], true) ∧ allOuts crashCfg = [1, 2] ∧ allErrs crashCfg = [] := crash_loses_item'
+
+/-- a crash before the caller woke from `event.wait()`: `_main_err` is seen, no further process is started, the call returns `[]` -/
+theorem crash_before_event_skips_counterexample :
+    (runTraceF skipCfg (initF skipCfg 1) skipTrace).map (fun s => (s.b.main, outcome s.b, s.skipped, s.lostOuts, enabledF skipCfg s (.base (.wBegin 1))))
+      = some (Phase.done, Outcome.ok [], true, [1], false) := crash_before_event_skips'
+
+/-! ### phase 4: `read_wait=True` — `enabledR`/`stepR` (keys in the out-queue, processes that wait for the caller) -/
+
+/-- every run with `read_wait` (either value of the flag) is, after erasing the key steps, a run of the base system: the base part of
+every reachable state is `Reachable`.  Hence `exactly_once`, `ok_complete`, `never_duplicated`, `error_surfaces`, `raised_genuine`,
+`max_tasks_respected` hold verbatim for `s.b` with `read_wait=True` (delaying a callback until the caller has read the key is one
+of the schedules the base theorems already quantify over). -/
+theorem readwait_refines (c : Cfg) (rw : Bool) (s : RState) (hr : ReachableR c rw s) : Reachable c s.b :=
+  readwait_refines' c rw s hr
+
+/-- with `read_wait=False` no process ever waits for the caller -/
+theorem no_readwait_no_keys (c : Cfg) (s : RState) (hr : ReachableR c false s) : s.keyPending = [] ∧ s.keyWait = [] :=
+  no_readwait_no_keys' c s hr
+
+/-- never hangs with `read_wait`: `muR` strictly decreases on every step (key steps included), for every schedule … -/
+theorem variant_decreases_readwait (c : Cfg) (rw : Bool) (s : RState) (a : ActionR) (h : enabledR c s a = true) :
+    muR c (stepR c rw s a) < muR c s := muR_decreases' c rw s a h
+
+/-- … so every schedule is finite, with an explicit bound -/
+theorem terminates_readwait (c : Cfg) (rw : Bool) (tr : List ActionR) (s : RState) (h : runTraceR c rw (initR c) tr = some s) :
+    tr.length ≤ 6 * mu c (init c) := terminates_readwait' c rw tr s h
+
+/-- the key layer's invariant: the base out-queue is the real one without the keys, and (while the caller is active) the key of
+every process that waits for the caller is still in the out-queue -/
+theorem readwait_inv (c : Cfg) (rw : Bool) (s : RState) (hr : ReachableR c rw s) :
+    s.b.outq = s.routq.filterMap ROut.proj ∧ (s.b.active = true → ∀ w ∈ s.keyWait, ROut.key w ∈ s.routq) :=
+  rinv_reachable c rw s hr
+
+/-- never hangs with `read_wait`: as long as the call has not finished, some step other than "the caller gives up" is possible —
+a process that waits for the caller has its key in the out-queue, and the caller can always take the head of that queue -/
+theorem deadlock_free_readwait (c : Cfg) (hn : 0 < c.n) (rw : Bool) (s : RState) (hr : ReachableR c rw s) (hnd : s.b.main ≠ .done) :
+    ∃ a, a ≠ ActionR.base .cAbandon ∧ enabledR c s a = true := deadlock_free_readwait' c hn rw s hr hnd
+
+/-- with `terminates_readwait`: every schedule is finite and one that cannot be extended has finished the call (phase `done`),
+where by `readwait_refines` + `exactly_once` / `error_surfaces` the outcome is the complete multiset, or the filter's error is raised -/
+theorem reaches_done_readwait (c : Cfg) (hn : 0 < c.n) (rw : Bool) (s : RState) (hr : ReachableR c rw s)
+    (hstuck : ∀ a, a ≠ ActionR.base .cAbandon → enabledR c s a = false) : s.b.main = .done :=
+  reaches_done_readwait' c hn rw s hr hstuck
+
+/-- non-vacuity: n = 1, m = 1, one item, `read_wait=True`: after the worker wrote its key its callback has to wait (the base system
+would allow it), and the complete schedule ends `ok [1]` with every key consumed -/
+example :
+    (runTraceR rwCfg true (initR rwCfg) rwTrace1).map (fun s => (s.routq, s.keyWait, enabledR rwCfg s (.base (.wCallback 0)), enabled rwCfg s.b (.wCallback 0)))
+      = some ([ROut.val 1, ROut.key 0], [0], false, true)
+    ∧ (runTraceR rwCfg true (initR rwCfg) (rwTrace1 ++ rwTrace2)).map (fun s => (s.b.main, outcome s.b, s.routq, s.keyPending, s.keyWait))
+      = some (Phase.done, Outcome.ok [1], [], [], []) := readwait_example'
+
+/-! ### phase 4: translator obligations — `Generated/C08Callback.lean` is re-extracted from coba/pipes/multiprocessing.py (Python `ast`)
+on every run; the model's steps are what the CURRENT source says (an edit of these expressions breaks one of these proofs) -/
+
+open Coba.Generated.C08 in
+theorem generated_cap (c : Cfg) : cap c = capFactor * c.n := rfl
+
+open Coba.Generated.C08 in
+theorem generated_init (c : Cfg) : (init c).nprocs = initProcs c.n := rfl
+
+open Coba.Generated.C08 in
+theorem generated_pills (c : Cfg) (s : State) : (step c s .loadFinish).todo = List.replicate (pillsWritten s.nprocs) none := rfl
+
+open Coba.Generated.C08 in
+theorem generated_callback (c : Cfg) (s : State) (w : Nat) (p : Bool) (e : Option Nat) (hw : s.ws[w]? = some (.exited p e)) :
+    step c s (.wCallback w) =
+      (if restartCond p (s.excs ++ e.toList).isEmpty true then { s with excs := s.excs ++ e.toList, ws := s.ws.set w .spawned }
+       else { s with excs := s.excs ++ e.toList, ws := s.ws.set w .dead, nprocs := afterExit s.nprocs,
+                     outq := if pillCond (afterExit s.nprocs) then s.outq ++ [none] else s.outq }) := by
+  cases p <;> simp [step, hw, restartCond, afterExit, pillCond]
+
+open Coba.Generated.C08 in
+theorem generated_crash_no_restart : ∀ p b : Bool, restartCond p b false = false := by decide
+
+open Coba.Generated.C08 in
+theorem generated_consumes (c : Cfg) (s : FState) :
+    (stepF c s (.base .mEvent)).b.main = (if consumes s.mainErr then Phase.consuming else Phase.fin) := by
+  cases h : s.mainErr <;> simp [stepF, step, consumes, h]
 
 /-! ### the hypotheses are satisfiable: complete schedules observed on the real code
 (logged by the harness from `Multiprocessor.filter` under the controlled scheduler) -/
